@@ -204,6 +204,9 @@ class _ExprInliner(ast.NodeTransformer):
             return n
         callee, skip = r
         cnode = callee.node if isinstance(callee, FuncInfo) else callee
+        # only helpers of the same module: calls into other modules are the named operations rules are written against
+        if isinstance(callee, FuncInfo) and callee.module is not self.owner.module:
+            return n
         body = [s for s in cnode.body if not (isinstance(s, ast.Expr) and isinstance(s.value, ast.Constant) and isinstance(s.value.value, str))]
         ret_expr = _as_expr(body)
         if ret_expr is None:
@@ -319,7 +322,8 @@ def _pure_arg(v):
     return False
 
 
-def expand(prog, f, depth=2):
+def expand(prog, f, depth=2, local_only=False):
+    # local_only: inline only helpers of f's own module (calls into other modules stay as named operations)
     counter = [0]
     root = desugar(f.node)
 
@@ -346,7 +350,8 @@ def expand(prog, f, depth=2):
                 if r is not None:
                     callee, skip = r
                     cnode = callee.node if isinstance(callee, FuncInfo) else callee
-                    if cnode is not f.node and not any(isinstance(x, (ast.Yield, ast.YieldFrom)) for x in ast.walk(cnode)):
+                    if cnode is not f.node and not any(isinstance(x, (ast.Yield, ast.YieldFrom)) for x in ast.walk(cnode)) \
+                            and not (local_only and isinstance(callee, FuncInfo) and callee.module is not f.module):
                         self_expr = copy.deepcopy(call.func.value) if isinstance(call.func, ast.Attribute) else None
                         body = _callee_body(prog, callee, skip, call, counter, self_expr)
                         if body is not None:
